@@ -9,6 +9,7 @@ package main
 
 import (
 	"flag"
+	"strings"
 	"time"
 
 	"verif/vk"
@@ -17,6 +18,7 @@ import (
 )
 
 var part = flag.String("part", "all", "model|local|net|all")
+var only = flag.String("only", "", "run only the local searches whose name contains this")
 
 func main() {
 	log.Root().SetHandler(log.DiscardHandler())
@@ -32,6 +34,15 @@ func main() {
 	if *part == "all" || *part == "local" {
 		restore := r.Limit(r.Remaining() * 55 / 100)
 		cfgs := localConfigs(r)
+		if *only != "" {
+			var sel []*localCfg
+			for _, c := range cfgs {
+				if strings.Contains(c.name, *only) {
+					sel = append(sel, c)
+				}
+			}
+			cfgs = sel
+		}
 		for i, c := range cfgs {
 			// equal share of what is left for every remaining search
 			restoreOne := r.Limit(r.Remaining() / time.Duration(len(cfgs)-i))
